@@ -210,12 +210,25 @@ func mws(log *hv.Log, names []string) []types.Middleware[*hv.H] {
 	return out
 }
 
+// mwArena backs the slices made by spare: one array re-used by every call and with spare capacity, the way a
+// caller passes `list[:n]...`. A callee that keeps the slice or appends into its capacity instead of copying
+// gets its middlewares overwritten by the next call.
+var mwArena = make([]types.Middleware[*hv.H], 0, 64)
+
+func spare(log *hv.Log, names []string) []types.Middleware[*hv.H] {
+	a := mwArena[:0]
+	for _, n := range names {
+		a = append(a, hv.MW{Name: n, Log: log})
+	}
+	return a
+}
+
 func newC09Sys(cfg RouterCfg) *c09Sys {
 	s := &c09Sys{log: &hv.Log{ByH: map[*hv.H]hv.FactoryCall{}}}
 	s.r = NewRouter(cfg)
-	s.p1 = s.r.Prefix("/p", mws(s.log, []string{"D"})...)
-	s.p2 = s.p1.Prefix("/q", mws(s.log, []string{"E", "F"})...)
-	s.res = s.p1.Resource("/r/{id}", mws(s.log, []string{"G"})...)
+	s.p1 = s.r.Prefix("/p", spare(s.log, []string{"D"})...)
+	s.p2 = s.p1.Prefix("/q", spare(s.log, []string{"E", "F"})...)
+	s.res = s.p1.Resource("/r/{id}", spare(s.log, []string{"G"})...)
 	return s
 }
 
@@ -224,17 +237,17 @@ func (s *c09Sys) apply(o mwOp) (any, bool) {
 		h := hv.Route("h:" + facadePrefix[o.Via] + o.P + ":" + strings.Join(o.Ms, "+"))
 		switch o.K {
 		case "use":
-			s.r.Use(mws(s.log, o.Use)...)
+			s.r.Use(spare(s.log, o.Use)...)
 		case "handle":
 			switch o.Via {
 			case "":
-				s.r.Handle(o.P, h, mws(s.log, o.Route), o.Ms...)
+				s.r.Handle(o.P, h, spare(s.log, o.Route), o.Ms...)
 			case "P1":
-				s.p1.Handle(o.P, h, mws(s.log, o.Route), o.Ms...)
+				s.p1.Handle(o.P, h, spare(s.log, o.Route), o.Ms...)
 			case "P2":
-				s.p2.Handle(o.P, h, mws(s.log, o.Route), o.Ms...)
+				s.p2.Handle(o.P, h, spare(s.log, o.Route), o.Ms...)
 			case "R":
-				s.res.Handle(h, mws(s.log, o.Route), o.Ms...)
+				s.res.Handle(h, spare(s.log, o.Route), o.Ms...)
 			}
 		case "remove":
 			switch o.Via {
@@ -501,7 +514,7 @@ func (s *gsys) apply(o mwOp) (any, bool) {
 	return Guard(func() {
 		switch o.K {
 		case "guse":
-			s.g.Use(mws(s.log, o.Use)...)
+			s.g.Use(spare(s.log, o.Use)...)
 			s.muse = append(s.muse, o.Use...)
 			for n := range s.live {
 				s.ruse[n] = append(s.ruse[n], o.Use...)
@@ -520,10 +533,10 @@ func (s *gsys) apply(o mwOp) (any, bool) {
 			s.rts[o.Name] = map[string][]string{}
 			s.live[o.Name] = true
 		case "ruse":
-			s.rs[o.Name].Use(mws(s.log, o.Use)...)
+			s.rs[o.Name].Use(spare(s.log, o.Use)...)
 			s.ruse[o.Name] = append(s.ruse[o.Name], o.Use...)
 		case "rhandle":
-			s.rs[o.Name].Handle(o.P, hv.Route("h:"+o.Name+o.P), mws(s.log, o.Route), o.Ms...)
+			s.rs[o.Name].Handle(o.P, hv.Route("h:"+o.Name+o.P), spare(s.log, o.Route), o.Ms...)
 			l := o.Route
 			if l == nil {
 				l = []string{}
